@@ -570,9 +570,11 @@ Definition t_add_switch (sub : bool) (name : str) (nid : option str) (nports : n
   (fun e => remove_network_node n ;;; raise e).
 
 (* Topology.add_link (topology.py:339) *)
-Definition t_add_link (sub : bool) (name : str) (lid : option str) (ltype : str) (ifs : list str) : M unit :=
+Definition t_add_link (fl : flags) (sub : bool) (name : str) (lid : option str) (ltype : str) (ifs : list str) : M unit :=
   g <- getg ;;
   guard (negb (existsb (has_name name) (filter (fun n => cls_eqb (ncls n) KLink) (gnodes g)))) ETopology ;;;
+  (* proposed C07-9: the arguments are Interface handles (the graph layer only looks whether the ids exist) *)
+  guard (negb (fl_link_cp_only fl) || forallb (fun i => cls_is g i KCP) ifs) ETopology ;;;
   new_link sub name lid ltype ifs ;;; ret tt.
 
 (* Topology.remove_link (topology.py:361) *)
@@ -731,6 +733,19 @@ Definition resolve (g : graph) (k : cls) (x : str) : bool :=
   | None => false
   end.
 Definition need (k : cls) (x : str) : M unit := g <- getg ;; guard (resolve g k x) ENoRef.
+(* a handle of whatever class the element has (the harness hands add_link handles of any class) *)
+Definition need_elem (x : str) : M unit :=
+  g <- getg ;; guard (match get_node g x with Some n => match nname n with Some _ => true | None => false end | None => false end) ENoRef.
+
+(* the public entry point NetworkService.disconnect_interface (proposed C07-10): a peering port is not disconnected on
+   its own -- its peer would go and leave it without peer *)
+Definition public_disconnect (fl : flags) (i : str) : M unit :=
+  (if fl_disc_peering fl then
+     t <- type_is i sServicePort ;;
+     ps <- get_peers i (Some sServicePort) ;;
+     guard (negb (t && match ps with Some (_ :: _) => true | _ => false end)) ETopology
+   else ret tt) ;;;
+  disconnect_interface i.
 
 (* ---- the calls ------------------------------------------------------------------------------------ *)
 Inductive op :=
@@ -754,6 +769,7 @@ Inductive op :=
 | ODisconnect (s i : str)
 | OPeer (a b : str)
 | OUnpeer (a b : str)
+| OStaleAddIface (s name : str) (iid : option str) (itype : str)
 | OAddSub (i name : str) (cid : option str) (has_vlan : bool)
 | ORemoveSub (i name : str)
 | ORename (r : eref) (new : str)
@@ -779,10 +795,13 @@ Definition run_op (sub : bool) (fl : flags) (hint : list str) (o : op) : M unit 
   | ORemoveNS name => t_remove_ns fl hint name
   | ONodeAddNS n name sid nstype => need KNode n ;;; node_add_ns n name sid nstype ;;; ret tt
   | ONodeRemoveNS n name => need KNode n ;;; node_remove_ns fl hint n name
-  | OAddLink name lid ltype ifs => for_each ifs (need KCP) ;;; t_add_link sub name lid ltype ifs
+  | OAddLink name lid ltype ifs => for_each ifs need_elem ;;; t_add_link fl sub name lid ltype ifs
   | ORemoveLink name => t_remove_link fl name
   | OConnect s i => need KNS s ;;; need KCP i ;;; connect_interface fl sub s i
-  | ODisconnect s i => need KNS s ;;; need KCP i ;;; disconnect_interface i
+  | ODisconnect s i => need KNS s ;;; need KCP i ;;; public_disconnect fl i
+  (* NetworkService.add_interface through the handle of a service that has been removed since (no resolution: the
+     harness kept the handle); the name is new to the handle's cached list *)
+  | OStaleAddIface s name iid itype => new_interface sub name iid s itype false ;;; ret tt
   | OPeer a b => need KNS a ;;; need KNS b ;;; ns_peer fl sub a b
   | OUnpeer a b => need KNS a ;;; need KNS b ;;; ns_unpeer a b
   | OAddSub i name cid v => need KCP i ;;; iface_add_child sub i name cid v
